@@ -208,4 +208,7 @@ def run(ctx):
              "triples at the tail (e.g. a final option with an empty value, exactly 4 bytes) are dropped without an error" % (
                  {k: sm.get(k) for k in ("ok_points", "out_le_len", "out_ge_len")},))
     report.assumptions += ["RCODE discriminants as exported by the compiler", "std calls in OPT::parse modelled by contract"]
+    # R2 (writer side): the CLASS slot of the OPT record carries udp_packet_size, all 16 bits (values evaluated from the writer's table)
+    import c02
+    c02.class_word_rule(ctx, report, "C09-R2", only_opt=True)
     return report.finish()
